@@ -502,9 +502,27 @@ RULES = {'c17_loadable_corruption': rule_loadable_corruption}
 
 
 def recheck(case):
+    try:
+        return _recheck(case)
+    except Exception as e:
+        if not _through_parso(e):
+            raise
+        # the shard that contains the case no longer gets as far as the case
+        return {tuple(str(x) for x in ('fault-free-step-raises',) + core.exc_sig(e))}
+
+
+def _recheck(case):
     env.setup()
     root = env.scratch_root()
     try:
+        if case['kind'] == 'fault-free-step':
+            try:
+                globals()[case['fn']](root, *case['args'])
+            except Exception as e:
+                if not _through_parso(e):
+                    raise
+                return {tuple(str(x) for x in ('fault-free-step-raises',) + core.exc_sig(e))}
+            return set()
         if case['kind'] in ('crash', 'torn-write'):
             a, _ = crash_shard(root, case['module'], case['version'], case.get('phase', 'save'), case['exc'])
         elif case['kind'] == 'maint':
@@ -519,8 +537,26 @@ def recheck(case):
         shutil.rmtree(root, ignore_errors=True)
 
 
+def _through_parso(e):
+    import traceback
+    return any(os.path.realpath(f.filename).startswith(env.REPO + os.sep)
+               for f in traceback.extract_tb(e.__traceback__))
+
+
 def tagged(job):
-    return job[0], globals()[job[1]](*job[2:])
+    try:
+        return job[0], globals()[job[1]](*job[2:])
+    except Exception as e:
+        # every step a shard makes outside its own try-blocks runs with no fault injected: an exception
+        # that escapes from parso there is a parse that failed in a fault-free environment
+        if not _through_parso(e):
+            raise
+        acc = _acc()
+        acc.evaluations += 1
+        acc.nontrivial += 1
+        acc.fail(('fault-free-step-raises',) + core.exc_sig(e),
+                 {'kind': 'fault-free-step', 'fn': job[1], 'args': list(job[3:])}, repr(e))
+        return job[0], (acc.strip(), 0)
 
 
 def run(tier, seed):
